@@ -87,7 +87,17 @@ pub fn judge(w: &World, r: &RunResult) -> Vec<Violation> {
             Ok(o) => o.iter().map(|(n, h)| (*n, h.0.clone())).collect(),
             Err(_) => BTreeMap::new(),
         };
-        let draws: Vec<&Vec<u8>> = e.draws.iter().map(|d| &d.0).collect();
+        // hidden random choices are searched by value in every window of the op's tape,
+        // so that splitting or merging draws is not an alarm
+        let tape: Vec<u8> = e.draws.iter().flat_map(|d| d.0.iter().copied()).collect();
+        // candidates: whole draws of that length first (the common case), then every window
+        let windows = |n: usize| -> Vec<Vec<u8>> {
+            let mut c: Vec<Vec<u8>> = e.draws.iter().filter(|d| d.0.len() == n).map(|d| d.0.clone()).collect();
+            if tape.len() >= n {
+                c.extend(tape.windows(n).map(|w| w.to_vec()));
+            }
+            c
+        };
         let resolve_ids = |ids: &WIds, bytes: &BTreeMap<Id, Vec<u8>>, setups: &BTreeMap<Id, SetupB>| -> Option<(Option<Vec<u8>>, Option<Vec<u8>>)> {
             let one = |x: &IdSpec| -> Option<Option<Vec<u8>>> {
                 Some(match x {
@@ -103,25 +113,8 @@ pub fn judge(w: &World, r: &RunResult) -> Vec<Violation> {
             Op::NewSetup { out, hsm, .. } => {
                 let Some(st) = outs.get("setup") else { continue };
                 let sb = SetupB { seed: st[..nh].to_vec(), sk: st[nh..nh + nsk].to_vec(), fake_sk: st[nh + nsk..].to_vec(), pk: outs["pk"].clone() };
-                if let Some(pk) = grp::base_mul(b.ke, &sb.sk) {
-                    if pk != sb.pk {
-                        bad!(i, "server public key (sk*G)", &sb.pk, &pk);
-                    }
-                }
-                if !*hsm {
-                    // keys are DeriveDiffieHellmanKeyPair of a drawn seed; the OPRF seed is drawn
-                    let derived: Vec<Vec<u8>> = draws.iter().filter(|d| d.len() == nsk).filter_map(|d| b.derive_dh_keypair(d).map(|x| x.0)).collect();
-                    if !derived.contains(&sb.sk) {
-                        bad!(i, "server private key (DeriveDiffieHellmanKeyPair of a drawn seed)", &sb.sk, derived.first().unwrap_or(&vec![]));
-                    }
-                    if !derived.contains(&sb.fake_sk) {
-                        bad!(i, "fake private key (DeriveDiffieHellmanKeyPair of a drawn seed)", &sb.fake_sk, derived.last().unwrap_or(&vec![]));
-                    }
-                    if !draws.iter().any(|d| **d == sb.seed) {
-                        bad!(i, "OPRF seed (drawn)", &sb.seed, &vec![]);
-                    }
-                }
-                compared(if *hsm { 1 } else { 4 });
+                // how the server generates its long-term keys is outside the property; they are witnesses
+                let _ = hsm;
                 bytes.insert(*out, st.clone());
                 setups.insert(*out, sb);
             }
@@ -168,9 +161,6 @@ pub fn judge(w: &World, r: &RunResult) -> Vec<Violation> {
                 }
                 let rwd = b.randomized_pwd(&y, &stretch(fam, ksf, &y));
                 let n_e = &up[npk + nh..npk + nh + 32];
-                if !draws.iter().any(|d| d.as_slice() == n_e) {
-                    bad!(i, "envelope nonce (drawn)", &n_e.to_vec(), &vec![]);
-                }
                 let Some(env) = b.envelope(&rwd, n_e, spk, idu.as_deref(), ids_.as_deref()) else { continue };
                 let mut exp = env.client_pk.clone();
                 exp.extend_from_slice(&env.masking_key);
@@ -218,19 +208,23 @@ pub fn judge(w: &World, r: &RunResult) -> Vec<Violation> {
                 if n_c_state != &m[noe..noe + 32] {
                     bad!(i, "client nonce (state vs message)", &n_c_state.to_vec(), &m[noe..noe + 32].to_vec());
                 }
-                if !draws.iter().any(|d| d.as_slice() == &m[noe..noe + 32]) {
-                    bad!(i, "client nonce (drawn)", &m[noe..noe + 32].to_vec(), &vec![]);
-                }
-                let cands: Vec<(Vec<u8>, Vec<u8>)> = draws.iter().filter(|d| d.len() == nsk).filter_map(|d| b.derive_dh_keypair(d)).collect();
-                match cands.iter().find(|c| c.0 == esk) {
+                let ws = windows(nsk);
+                let mut first: Option<Vec<u8>> = None;
+                let hit = ws.iter().filter_map(|d| b.derive_dh_keypair(d)).find(|c| {
+                    if first.is_none() {
+                        first = Some(c.0.clone());
+                    }
+                    c.0 == esk
+                });
+                match hit.as_ref() {
                     Some(c) => {
                         if c.1[..] != m[noe + 32..] {
                             bad!(i, "client ephemeral public key", &m[noe + 32..].to_vec(), &c.1);
                         }
                     }
-                    None => bad!(i, "client ephemeral private key (DeriveDiffieHellmanKeyPair of a drawn seed)", &esk, cands.first().map(|c| &c.0).unwrap_or(&vec![])),
+                    None => bad!(i, "client ephemeral private key (DeriveDiffieHellmanKeyPair of a drawn seed)", &esk, &first.clone().unwrap_or_default()),
                 }
-                compared(6);
+                compared(5);
                 clis.insert(*st, CliB { r: rr, ke1: ke1.clone(), esk });
                 bytes.insert(*msg, m.clone());
             }
@@ -263,9 +257,10 @@ pub fn judge(w: &World, r: &RunResult) -> Vec<Violation> {
                     None => {
                         let fpk = grp::base_mul(b.ke, &su.fake_sk).unwrap_or_default();
                         let zeros = vec![0u8; 32 + nh];
-                        let key = draws.iter().filter(|d| d.len() == nh).find(|d| b.masked_response(d, n_m, &su.pk, &zeros) == masked);
+                        let ws = windows(nh);
+                        let key = ws.iter().find(|d| b.masked_response(d, n_m, &su.pk, &zeros) == masked);
                         match key {
-                            Some(k) => (fpk, (*k).clone(), zeros),
+                            Some(k) => (fpk, k.clone(), zeros),
                             None => {
                                 bad!(i, "fake credential response: masked_response is not Pad(random key, nonce) XOR (server_public_key ‖ 0…0)", &masked.to_vec(), &vec![]);
                                 continue;
@@ -277,12 +272,7 @@ pub fn judge(w: &World, r: &RunResult) -> Vec<Violation> {
                 if em != masked {
                     bad!(i, "credential response: masked_response", &masked.to_vec(), &em);
                 }
-                for (nm, x) in [("masking nonce (drawn)", n_m), ("server nonce (drawn)", n_s)] {
-                    if !draws.iter().any(|d| d.as_slice() == x) {
-                        bad!(i, nm, &x.to_vec(), &vec![]);
-                    }
-                }
-                let Some((esk_s, _)) = draws.iter().filter(|d| d.len() == nsk).filter_map(|d| b.derive_dh_keypair(d)).find(|c| c.1 == epk_s) else {
+                let Some((esk_s, _)) = windows(nsk).iter().filter_map(|d| b.derive_dh_keypair(d)).find(|c| c.1 == epk_s) else {
                     bad!(i, "server ephemeral public key (DeriveDiffieHellmanKeyPair of a drawn seed)", &epk_s.to_vec(), &vec![]);
                     continue;
                 };
@@ -302,7 +292,7 @@ pub fn judge(w: &World, r: &RunResult) -> Vec<Violation> {
                 if state.len() % nh != 0 || chunks.iter().any(|ch| !allowed.iter().any(|a| a.as_slice() == *ch)) || !chunks.iter().any(|ch| *ch == ks.session_key.as_slice()) {
                     bad!(i, "server pending-login state (must consist of session_key, Km3 / expected client MAC, Hash(preamble ‖ server_mac))", state, &[ks.km3.clone(), ks.hash_preamble_mac.clone(), ks.session_key.clone()].concat());
                 }
-                compared(7);
+                compared(5);
                 sess.insert(*st, SessB { session_key: ks.session_key.clone() });
             }
             Op::LoginFinish { out, st, pw, resp, ctx, ids, ksf } => {
